@@ -45,6 +45,8 @@ var provTemplates = []struct {
 	{"add-r", "%s + 1", true}, {"add-l", "1 + %s", true}, {"concat", "%s + \"s\"", true}, {"mul", "%s * 2", true},
 	{"div", "%s / 2", true}, {"mod", "%s %% 2", true}, {"shift", "%s << 1", true},
 	{"eq", "%s == 1", true}, {"eq-l", "\"ab\" == %s", true}, {"lt", "%s < 2", true}, {"and", "%s && true", true}, {"or", "false || %s", true},
+	{"lt-big", "%s < 9007199254740993", true}, {"gt-big", "%s > 9007199254740992", true}, {"le-big-l", "9007199254740993 <= %s", true},
+	{"ge-big-l", "9007199254740992 >= %s", true}, {"lt-float", "%s < 2.5", true}, {"ge-str", "%s >= \"ab\"", true},
 	{"index", "%s[0]", true}, {"index-by", "[5, 6][%s]", true}, {"slice", "%s[0:1]", true}, {"slice-by", "[5, 6, 7][%s:]", true},
 	{"len", "len(%s)", true}, {"in-list", "1 in %s", true}, {"in-item", "%s in [1, \"ab\", true]", true},
 	{"call0", "%s()", true}, {"call1", "%s(1)", true},
@@ -58,7 +60,9 @@ var provTemplates = []struct {
 	{"make-len", "len(make([]int64, %s))", false}, {"make-cap", "make([]int64, 0, %s)", false},
 	{"delete", "dm = {\"k\": 1}\ndelete(dm, %s)\ndm", false}, {"delete-from", "delete(%s, \"k\")", false},
 	{"assign-elem", "t = %s\nt[0] = 9\nt", false},
-	{"send", "%s <- 1", false}, {"recv", "<- %s", false}, {"close", "close(%s)", false}, {"chan-len", "len(%s)", false},
+	{"send", "%s <- 1", false}, {"recv", "<- %s", false},
+	{"forward-from", "fwd = make(chan int64, 1)\nfwd <- %s\n<-fwd", false}, {"forward-from-iface", "fwd = make(chan interface, 1)\nfwd <- %s\n<-fwd", false},
+	{"recv-stmt", "rv, rok = <- %s\n[rv, rok]", false}, {"send-value", "sc = make(chan interface, 1)\nsc <- %s\n<-sc", false}, {"close", "close(%s)", false}, {"chan-len", "len(%s)", false},
 	{"deref", "*%s", false}, {"go", "go %s(1)", false},
 	{"typed-arg", "typed(%s)", true}, {"to-go-string", "import(\"strings\").ToUpper(%s)", false},
 	{"var-then-neg", "var t = %s\n-t", true}, {"var-then-index", "var t = %s\nt[0]", true},
@@ -74,7 +78,7 @@ func provValues() map[string]interface{} {
 		"vint": int64(3), "vfloat": 1.5, "vstr": "ab", "vbool": true, "vnil": nil, "vzero": int64(0),
 		"vlist": []interface{}{int64(1), int64(2)}, "vmap": map[interface{}]interface{}{"k": int64(1)},
 		"vgofn": func(x ...interface{}) int64 { return int64(len(x)) },
-		"vchan": ch, "vptr": &seven, "vone": int64(1),
+		"vchan": ch, "vptr": &seven, "vone": int64(1), "vbig": int64(9007199254740993), "vbig0": int64(9007199254740992),
 	}
 }
 
@@ -83,7 +87,7 @@ func streamProv(o *Out, r *rand.Rand, n int, thorough bool) {
 		"delete, element assignment, channel ops, deref, conversion to Go parameters) x operand values (int, float, string, bool, nil, list, map, script and Go functions, " +
 		"channel, pointer) x provenance chains of length 1-3 (element, map entry, member, script call, script argument, Go call returning interface{}, parentheses, ?:, ??, " +
 		"multi-return element, variadic tail); oracle: outcome must equal the same template on the plain variable; F0 templates also through the model; distinct by request hash"
-	valNames := []string{"vint", "vfloat", "vstr", "vbool", "vnil", "vzero", "vlist", "vmap", "vfn", "vgofn", "vchan", "vptr", "vone"}
+	valNames := []string{"vint", "vfloat", "vstr", "vbool", "vnil", "vzero", "vlist", "vmap", "vfn", "vgofn", "vchan", "vptr", "vone", "vbig", "vbig0"}
 	run := func(src string) (vmResult, bool) {
 		stmt, err := parser.ParseSrc(src)
 		if err != nil {
@@ -127,6 +131,9 @@ func streamProv(o *Out, r *rand.Rand, n int, thorough bool) {
 	}()
 	for ti, t := range provTemplates {
 		for _, vn := range valNames {
+			if strings.HasPrefix(vn, "vbig") && (strings.HasPrefix(t.name, "make-") || t.name == "mul" || t.name == "shift") {
+				continue // astronomically large allocations are outside the guarantee (resource class)
+			}
 			baseSrc := prelude + fmt.Sprintf(t.src, vn)
 			base, ok := run(baseSrc)
 			if !ok {
